@@ -5,6 +5,7 @@ import itertools
 
 import core
 import trees
+import scale
 import modelrun
 from ref import oracle
 
@@ -31,9 +32,7 @@ RULE = ("model tie: the extracted Coq model of Hasher (hasher_inputs) vs the rea
         "public assemble() called AGAIN on the same object before write() with the tree unchanged, and assemble() again after one "
         "file grew / shrank / was added / was removed (judged against the tree on disk at that moment) -- and the command line with "
         "--prog 0|1|2 and --quiet; a third of the unit-correspondence cases are re-assembled too.  Names include runs of dots inside "
-        "a name (wait....bin, disc..2, ..hidden, a..).  A fifth of the end-to-end directories contain symbolic links to files of the "
-        "payload (to a sibling, into a sub-directory, from a sub-directory upwards with .. in the link text, now and then to another "
-        "link): judged as the files a reader following links sees.  A case is non-trivial when it is distinct and hits at least one boundary class.")
+        "a name (wait....bin, disc..2, ..hidden, a..).  A case is non-trivial when it is distinct and hits at least one boundary class.")
 TRUSTED_BASE = [
     "Coq 8.16.1 kernel; theorems closed under the global context; SHA-1 is an arbitrary function H1 in every theorem",
     "hand-written model Model/Hasher.v tied to hasher.py by differential execution (extracted OCaml vs the real iterator)",
@@ -44,9 +43,8 @@ TRUSTED_BASE = [
     "extraction: ExtrOcamlBasic, ExtrOcamlString; OCaml SHA-1 (ocaml/sha.ml, self-tested against hashlib) for the correspondence only",
     "os.listdir/readinto/getsize on regular files behave as specified; no concurrent writer",
 ]
-ASSUMPTIONS = ["no special files, dangling links, link loops or symlinked directories in the content tree; symbolic links to files of "
-               "the payload are part of the end-to-end search only (a reader following links sees a file named like the link with "
-               "the target's bytes) -- Model/Creators.v has no notion of a link, its correspondence runs on link-free trees",
+ASSUMPTIONS = ["no symbolic links or special files in the content tree (the property's quantifier excludes them; the generated trees "
+               "have none)",
                "file names are valid UTF-8 without '/' (a Python str is collapsed to its UTF-8 bytes; code-point order = byte order)",
                "the payload contains at least one file (Hasher([]) raises; excluded by the creator-level theorems via has_file)",
                "independence of the enumeration order / path spelling is C08's subject; here the order is an input of model and code alike"]
@@ -161,6 +159,9 @@ def route_name(inp, what="TorrentFile(..., "):
     return f"{what}progress={inp.get('progress', 0)}){r}"
 
 
+SCALE0 = 100000      # end-to-end case numbers from here on are the cases at scale
+
+
 def e2e(ctx):
     n = 40 if ctx.tier == "quick" else 600
     core.use_repo_in_process()
@@ -168,6 +169,9 @@ def e2e(ctx):
         os.environ["HOME"] = tmp
         for i in range(n):
             e2e_case(ctx, i, tmp)
+        # payloads at scale (harness/scale.py): piece lengths 2 .. 16 MiB, file sizes aimed at 1 / 4 / 8 MiB read windows
+        for j in range(len(scale.templates()) if ctx.tier == "quick" else 40):
+            e2e_case(ctx, SCALE0 + j, tmp)
 
 
 def e2e_case(ctx, i, tmp):
@@ -175,15 +179,13 @@ def e2e_case(ctx, i, tmp):
        failure (the replay restores it and calls this function again: same tree, same contents, same route)"""
     from torrentfile.cli import execute
     state = rng_state(ctx.rng)
-    pl = ctx.rng.choice([16384, 16384, 32768, 65536])
-    ltree, cl = trees.gen_tree(ctx.rng, pl)
+    if i >= SCALE0:
+        pl, ltree, cl = scale.gen(ctx.rng, i - SCALE0)
+    else:
+        pl = ctx.rng.choice([16384, 16384, 32768, 65536])
+        ltree, cl = trees.gen_tree(ctx.rng, pl)
     single = list(ltree) == [()]
-    if not single and (i % 5 == 1 or ctx.rng.random() < 0.1):
-        # symbolic links to files of the payload (trees.add_links: to a sibling, into a sub-directory, from a sub-directory
-        # upwards; 5 is coprime to the 4 routes).  The creator follows links: for the judge below, which reads the tree as it
-        # is on disk the same way, a link is a file named like the link with the target's bytes
-        ltree, lcl = trees.add_links(ctx.rng, ltree)
-        cl |= lcl
+    # no symbolic links here: C01's quantifier excludes them (C08 and C12 cover payloads with links)
     tree = trees.resolve_links(ltree)       # the reader's view: plain bytes everywhere; ltree is what gets written
     root = os.path.join(tmp, f"c{i}", "payload.bin" if single else "payload")
     trees.write_tree(root, ltree)
@@ -272,10 +274,6 @@ def run(ctx, model_ok):
     cc.unit_for(ctx, model_ok, CREATOR_KINDS, n=180 if quick else 1440, budget=90000 if quick else 300000,
                 required=CREATOR_CLASSES)
     e2e(ctx)
-    for shape in trees.LINK_SHAPES:
-        if ctx.classes.get("file symlink " + shape, 0) < 2:
-            ctx.broken.append(f"boundary class 'file symlink {shape}' was hit {ctx.classes.get('file symlink ' + shape, 0)} times "
-                              "(< 2) by the end-to-end search: the run is not accepted")
 
 
 # ------------------------------------------------------------------------------------------------ replay toolkit
